@@ -6,5 +6,5 @@ CONSTANTS
   MaxFrag = 4
   EmitLen = 5
   EmitFrag = 3
-  EmitTok = 4
+  EmitTok = 3
   Bounded = TRUE
